@@ -101,7 +101,8 @@ def find_entity(project, x):
     if k == "module":
         return next((m for m in project.modules if m.name == x["name"]), None)
     if k == "submodule":
-        return next((m for m in project.submodules if m.name == x["name"]), None)
+        return next((m for m in project.submodules if m.name == x["name"]
+                     and getattr(m.ancestor_module, "name", m.ancestor_module) == x["host"]), None)
     if k == "program":
         return next((m for m in project.programs if (m.name or "") == x["name"] and x["tracer"] in " ".join(m.doc_list)), None)
     if k == "blockdata":
